@@ -9,6 +9,7 @@ import (
 	"strings"
 
 	"github.com/carapace-sh/carapace"
+	"github.com/spf13/cobra"
 )
 
 // ---- ActionExpr: a deep embedding of the public API, shared with the Lean model (Model/Actions.lean)
@@ -97,6 +98,15 @@ func (b *builder) build(x *xExpr) carapace.Action {
 			return carapace.ActionMessage(x.M, args...)
 		}
 		return carapace.ActionMessage(x.M)
+	case "gen":
+		// a member that registers completions in the global registry while it runs
+		return carapace.ActionCallback(func(c carapace.Context) carapace.Action {
+			cmd := &cobra.Command{Use: "dyn", Run: func(*cobra.Command, []string) {}}
+			cmd.Flags().String("flag", "", "")
+			carapace.Gen(cmd).FlagCompletion(carapace.ActionMap{"flag": carapace.ActionValues("f1")})
+			carapace.Gen(cmd).PositionalCompletion(carapace.ActionValues("p1"))
+			return carapace.ActionValues("gen")
+		})
 	case "echo":
 		return carapace.ActionCallback(func(c carapace.Context) carapace.Action {
 			return carapace.ActionValues(
@@ -245,6 +255,14 @@ func runInvoke(raw json.RawMessage) interface{} {
 		out["panic"] = res.Panic
 	}
 	// for the frame oracles: the real result of the immediate inner expression with the same Context
+	if in.Expr.K == "batch" {
+		// what the members yield when invoked one after the other with the same Context
+		ms := []xResult{}
+		for _, e := range in.Expr.Es {
+			ms = append(ms, invokeSafe((&builder{}).build(e), in.Ctx.toContext()))
+		}
+		out["members"] = ms
+	}
 	if in.Expr.E != nil && in.Expr.K != "stored" {
 		out["inner"] = invokeSafe((&builder{}).build(in.Expr.E), in.Ctx.toContext())
 		if in.Expr.K == "pfx" {
@@ -546,6 +564,17 @@ func genInvoke(r *rng, tier string) interface{} {
 	if r.chance(15) {
 		return genMultiPartsCase(r)
 	}
+	if r.intn(60) == 0 {
+		// a large Batch: every member's values must arrive
+		n := 60 + r.intn(150)
+		x := &xExpr{K: "batch", Es: []*xExpr{}}
+		for i := 0; i < n; i++ {
+			x.Es = append(x.Es, &xExpr{K: "plain", Ps: []string{"m" + itoa(i)}})
+		}
+		c := genCtx(r)
+		c.Value = ""
+		return invokeIn{Expr: x, Ctx: c}
+	}
 	if r.chance(6) {
 		// case-insensitive matching with a typed word that differs from a prefix only in case
 		p := pick(r, []string{"file://", "ab", "x=", "Pre"})
@@ -669,7 +698,66 @@ func genRepeat(r *rng, tier string) interface{} {
 	return repeatIn{Expr: e, Ctx: c, Shell: pick(r, []string{"fish", "bash", "zsh", "elvish", "export", "nushell", "bash-ble"}), N: 30}
 }
 
+// ---- op "batchrace": Batch scenarios for the race detector (C09); run on the -race build
+func genBatchRace(r *rng, tier string) interface{} {
+	in := historyIn{}
+	leaf := func() *xExpr { return genLeaf(r) }
+	shared := leaf()
+	switch r.intn(4) {
+	case 0:
+		shared = &xExpr{K: "nospace", S: "/", E: shared}
+	case 1:
+		shared = &xExpr{K: "usage", S: "shared usage", E: shared}
+	case 2:
+		shared = &xExpr{K: "multiParts", Xs: []string{"/"}, E: shared}
+	}
+	in.Table = append(in.Table, shared)
+	ref := func() *xExpr { return &xExpr{K: "ref", ID: 0} }
+	members := []*xExpr{}
+	n := 2 + r.intn(4)
+	if r.chance(20) {
+		for i := 0; i < 3+r.intn(6); i++ {
+			members = append(members, &xExpr{K: "gen"})
+		}
+	}
+	for i := 0; i < n; i++ {
+		var m *xExpr
+		switch r.intn(9) {
+		case 0:
+			m = &xExpr{K: "pfx", S: itoa(i), E: ref()}
+		case 1:
+			m = ref()
+		case 2:
+			m = &xExpr{K: "withCtx", Edits: []xEdit{{K: "setenv", S: "VERIF_X", V: itoa(i)}}, E: &xExpr{K: "echo"}}
+		case 3:
+			m = &xExpr{K: "batch", Es: []*xExpr{leaf(), &xExpr{K: "sfx", S: "n", E: ref()}}}
+		case 4:
+			m = &xExpr{K: "withCtx", Edits: []xEdit{{K: "setArgs", Xs: []string{"x"}}, {K: "setValue", S: ""}}, E: leaf()}
+		case 5:
+			m = &xExpr{K: "style", S: "red", E: ref()}
+		case 6:
+			m = &xExpr{K: "gen"}
+		default:
+			m = genExpr(r, 2)
+		}
+		members = append(members, m)
+	}
+	in.Table = append(in.Table, &xExpr{K: "batch", Es: members})
+	c := genCtx(r)
+	c.CI = false
+	if r.chance(60) {
+		// spare capacity in Env after one Setenv: two members appending share the slot
+		c.Env = []string{"A=1", "B=2"}
+		in.Table[1] = &xExpr{K: "withCtx", Edits: []xEdit{{K: "setenv", S: "OUTER", V: "1"}}, E: in.Table[1]}
+	}
+	for i := 0; i < 3; i++ {
+		in.Steps = append(in.Steps, historyStep{E: 1, Ctx: c})
+	}
+	return in
+}
+
 func init() {
+	ops["batchrace"] = &opDef{gen: genBatchRace, run: runHistory}
 	ops["invoke"] = &opDef{gen: genInvoke, run: runInvoke}
 	ops["history"] = &opDef{gen: genHistory, run: runHistory}
 	ops["repeat"] = &opDef{gen: genRepeat, run: runRepeat}
